@@ -315,6 +315,14 @@ pub fn rdec_case(case: &Value, mode: &str, rep: &mut Report) {
                 Err(e) if e == "InvalidData" => { rep.class("invalid_data"); if k.raw() != before { bad(rep, "InvalidData changed the decoder".into()); } if mode == "c06" && !invalid.contains(&(prec as u64)) { bad(rep, format!("impl reports InvalidData at precision {} where the spec decodes", prec)); } }
                 other => bad(rep, format!("decode over arbitrary data returned {:?}", other)),
             }
+            // the iid convenience iterator is an ExactSizeIterator: it yields exactly `amt` items, errors included, and then ends
+            // (a decoder that reports InvalidData stays where it is, so the error repeats; it must not repeat for ever)
+            if mode == "c10" {
+                let mut k2 = d.clone_box();
+                let items = g!("decode_iid_symbols", k2.dec_iid(prec, &cdf, 3)); rep.checks += 1;
+                if items.len() != 3 { bad(rep, format!("decode_iid_symbols(3, ..) over arbitrary data yielded {} items", items.len())); }
+                if items.iter().any(|r| r.is_err()) { rep.class("iid_iterator_with_errors"); }
+            }
         }
     }
 }
